@@ -75,6 +75,44 @@ def run(chk):
         for q in qs:
             lines.append("kd %d %s %s %s" % (len(pts), " ".join(fhex(p[0]) + " " + fhex(p[1]) for p in pts), fhex(q[0]), fhex(q[1])))
     kd_impl = common.run_probe(lines)
+    # the single-answer search KDTree::find_closest_point on the same sets at several scales (distances below and above 1)
+    l1, m1 = [], []
+    for pts, qs in sets:
+        sc = rng.choice([1.0, 1e-2, 1e-3, 1e3])
+        for q in qs[:4]:
+            ps_, q_ = [(p[0] * sc, p[1] * sc) for p in pts], (q[0] * sc, q[1] * sc)
+            l1.append("kd1 %d %s %s %s" % (len(ps_), " ".join(fhex(p[0]) + " " + fhex(p[1]) for p in ps_), fhex(q_[0]), fhex(q_[1])))
+            m1.append((ps_, q_))
+    for line, (ps_, q_), a in zip(l1, m1, common.run_probe(l1)):
+        chk.evaluations += 1
+        v = common.parse_vec(a)
+        if v is None:
+            viol.append(("kd-tree single-answer query throws/crashes", {"line": line, "impl": a}))
+            continue
+        best = min(math.sqrt((p[0] - q_[0]) * (p[0] - q_[0]) + (p[1] - q_[1]) * (p[1] - q_[1])) for p in ps_)
+        got = math.sqrt((v[2] - q_[0]) * (v[2] - q_[0]) + (v[3] - q_[1]) * (v[3] - q_[1]))
+        if got != best or v[1] != best:
+            viol.append(("KDTree::find_closest_point does not return the nearest node (returned node at %.6g, reported %.6g, nearest %.6g)" % (got, v[1], best),
+                         {"line": line, "impl": a, "brute_force_min": best}))
+    # ---------------- polygon test on lattices: every vertex, every lattice point, both orientations ------------
+    import c04
+    pl_lines, pl_meta = [], []
+    for _ in range(40 if quick else 600):
+        size = rng.choice([4, 5, 6])
+        poly = c04.lattice_polygon(rng, rng.randint(3, 6), size)
+        for pg in (poly, poly[::-1], poly[1:] + poly[:1]):
+            pl = " ".join(fhex(c[0]) + " " + fhex(c[1]) for c in pg)
+            for p in [(float(x), float(y)) for x in range(-1, size + 1) for y in range(-1, size + 1)]:
+                pl_lines.append("poly c %d %s %s %s" % (len(pg), pl, fhex(p[0]), fhex(p[1])))
+                pl_meta.append((pg, p))
+    for line, (pg, p), a in zip(pl_lines, pl_meta, common.run_probe(pl_lines)):
+        chk.evaluations += 1
+        exp = c04.inside_spec(pg, p)
+        if list(p) in [list(v) for v in pg]:
+            chk.nontriv(("polyvertex", line))
+        if a.split() != ["ok", "1" if exp else "0"]:
+            viol.append(("polygon test differs from the closed-polygon definition (%s, exact arithmetic says %s)" % (a, exp),
+                         {"line": line, "polygon": pg, "point": list(p)}))
     cs = CaseSet("c19")
     plan = []
     li = 0
